@@ -1,12 +1,235 @@
+import SelenModel.Model.FloatCore
 import Driver.Util
 /-
-(stub — to be filled in) ops with the prefix of this suite: model side.
+`fl.*` ops of the line protocol: model side (float intervals, float/int store, float views and
+float propagators), everything evaluated at the `Float` instance of `Num`.
+
+Floats travel as the DECIMAL value of their 64-bit pattern (`nan` for any NaN: payloads are not
+compared).  A model `none` where the Rust code would panic is printed as `panic`.
 -/
 namespace Driver
+open Selen
 
 structure FloatSt where
-  dummy : Unit := ()
+  fi : FI Float := { min := 0.0, max := 0.0, step := 1.0 }
+  vars : Array (FVar Float) := #[]
 
-def floatStep (st : FloatSt) (_ws : List String) : FloatSt × String := (st, "bad-op")
+def showF (x : Float) : String := if x.isNaN then "nan" else toString x.toBits.toNat
+
+def parseF? (s : String) : Option Float :=
+  if s = "nan" then some FloatImpl.nan else s.toNat?.map (fun n => Float.ofBits n.toUInt64)
+
+def showFI (iv : FI Float) : String := s!"fi {showF iv.min} {showF iv.max} {showF iv.step}"
+
+def showVal : FVal Float → String
+  | .i v => s!"i:{v}"
+  | .f v => s!"f:{showF v}"
+
+def sortIntsF (l : List Int) : List Int := (l.toArray.qsort (· < ·)).toList
+
+def showVar : FVar Float → String
+  | .flt iv => s!"f:{showF iv.min}:{showF iv.max}:{showF iv.step}"
+  | .int d => "i:" ++ showInts (sortIntsF d)
+
+def FloatSt.store (s : FloatSt) : FStore Float := fun i => s.vars.getD i (.int [0])
+def FloatSt.ctx (s : FloatSt) : FCtx Float := { st := s.store, ev := [] }
+def FloatSt.absorb (s : FloatSt) (c : FCtx Float) : FloatSt :=
+  { s with vars := (Array.range s.vars.size).map (fun i => c.st i) }
+
+def showStore (n : Nat) (st : FStore Float) : String :=
+  "|".intercalate ((List.range n).map (fun i => showVar (st i)))
+
+def parseVal : List String → Option (FVal Float × List String)
+  | "i" :: k :: r => (parseInt? k).map (fun k => (.i k, r))
+  | "f" :: b :: r => (parseF? b).map (fun x => (.f x, r))
+  | _ => none
+
+/-- `c VAL | v k | opp V | plus VAL V | tpos VAL V | times VAL V | tneg VAL V | next V | prev V` -/
+partial def parseFView : List String → Option (FView Float × List String)
+  | "c" :: r => (parseVal r).map (fun (k, r) => (.const k, r))
+  | "v" :: i :: r => i.toNat?.map (fun i => (.var i, r))
+  | "opp" :: r => (parseFView r).map (fun (v, r) => (.opp v, r))
+  | "next" :: r => (parseFView r).map (fun (v, r) => (.next v, r))
+  | "prev" :: r => (parseFView r).map (fun (v, r) => (.prev v, r))
+  | "plus" :: r => do let (k, r) ← parseVal r; let (v, r) ← parseFView r; pure (.plus v k, r)
+  | "tpos" :: r => do let (k, r) ← parseVal r; let (v, r) ← parseFView r; pure (.tpos v k, r)
+  | "times" :: r => do let (k, r) ← parseVal r; let (v, r) ← parseFView r; pure (FView.times v k, r)
+  | "tneg" :: r => do let (k, r) ← parseVal r; let (v, r) ← parseFView r; pure (FView.timesNeg v k, r)
+  | _ => none
+
+def takeFloats (n : Nat) (ws : List String) : Option (List Float × List String) :=
+  if ws.length < n then none else
+    match (ws.take n).mapM parseF? with
+    | some l => some (l, ws.drop n)
+    | none => none
+
+def takeNatsF (n : Nat) (ws : List String) : Option (List Nat × List String) :=
+  if ws.length < n then none else
+    match (ws.take n).mapM (·.toNat?) with
+    | some l => some (l, ws.drop n)
+    | none => none
+
+def parseFPK (ws : List String) : Option (FPK Float) :=
+  match ws with
+  | "leq" :: r => do let (x, r) ← parseFView r; let (y, _) ← parseFView r; pure (.leq x y)
+  | "eq" :: r => do let (x, r) ← parseFView r; let (y, _) ← parseFView r; pure (.eq x y)
+  | "lt" :: r => do let (x, r) ← parseFView r; let (y, _) ← parseFView r; pure (FPK.lessThan x y)
+  | kind :: n :: r =>
+    if kind ∈ ["lineq", "linle", "linne", "lineqr", "linler", "linner"] then do
+      let n ← n.toNat?
+      let (cs, r) ← takeFloats n r
+      let (xs, r) ← takeNatsF n r
+      let ([c], r) ← takeFloats 1 r | none
+      match kind with
+      | "lineq" => pure (.linEq cs xs c)
+      | "linle" => pure (.linLe cs xs c)
+      | "linne" => pure (.linNe cs xs c)
+      | _ => do
+        let ([b], _) ← takeNatsF 1 r | none
+        match kind with
+        | "lineqr" => pure (.linEqReif cs xs c b)
+        | "linler" => pure (.linLeReif cs xs c b)
+        | _ => pure (.linNeReif cs xs c b)
+    else none
+  | _ => none
+
+def showEv (l : List Nat) : String := "ev=" ++ showNats l
+
+def optF : Option Float → String
+  | none => "panic"
+  | some x => showF x
+
+/-- the arithmetic self-test: a fixed list of expressions, printed as bit patterns -/
+def selftest : String :=
+  let f (b : Nat) : Float := Float.ofBits b.toUInt64
+  let a : Float := f 4591870180066957722   -- 0.1
+  let b : Float := f 4596373779694328218   -- 0.2
+  let c : Float := f 4599075939470750515   -- 0.3
+  let big : Float := f 4845873199050653696 -- 2^60
+  let nan := FloatImpl.nan
+  let inf : Float := f 9218868437227405312
+  let xs : List Float := [
+    a + b, a * b, a / c, a - c, (a * b) + c, (a * c) - b, a * a + a * a,
+    Float.floor 2.5, Float.floor (-2.5), Float.ceil 2.5, Float.ceil (-2.5),
+    Float.round 2.5, Float.round (-2.5), Float.round 0.5, Float.round (-0.5), Float.round 1.5,
+    Float.round (f 4602678819172646911), Float.round (f 4841369599423283200),
+    Float.abs (-0.0), Float.abs (-a), -(0.0 : Float),
+    Num.fmax a nan, Num.fmax nan a, Num.fmin a nan, Num.fmin nan b, Num.fmax a b, Num.fmin a b,
+    Num.ulp (1.0 : Float), Num.ulp (0.0 : Float), Num.ulp (-1.0 : Float), Num.ulp big, Num.ulp a, Num.ulp inf,
+    Num.nextFloat (1.0 : Float), Num.nextFloat (0.0 : Float), Num.nextFloat (-0.0 : Float), Num.nextFloat (-1.0 : Float), Num.nextFloat (-inf),
+    Num.prevFloat (1.0 : Float), Num.prevFloat (0.0 : Float), Num.prevFloat (-0.0 : Float), Num.prevFloat (-1.0 : Float), Num.prevFloat inf,
+    Num.e4, Num.e5, Num.e6, Num.e9, Num.e12, Num.tiny20, Num.tiny30,
+    (Num.ofInt 1 : Float) / Num.ofInt 32, (Num.ofInt 1 : Float) / Num.ofInt 1024, (Num.ofInt 1 : Float) / Num.ofInt 2048,
+    Num.ofInt (-2147483648), Num.ofInt 2147483647, Num.three * a, a / Num.two,
+    Float.ceil (a / Num.e6) * Num.e6, Float.floor (c / Num.e6) * Num.e6, Float.abs (f 4636737291354636288) * Num.e5,
+    big / 512.0, inf - inf, (0.0 : Float) / 0.0 ]
+  let is : List Int := [
+    Num.toI32 (2.7 : Float), Num.toI32 (-2.7 : Float), Num.toI32 (1e30 : Float), Num.toI32 (-1e30 : Float),
+    Num.toI32 nan, Num.toI32 inf, Num.toI32 (-inf), Num.toI32 (2147483647.5 : Float), Num.toI32 (-0.0 : Float) ]
+  let us : List Nat := [
+    Num.toUsize (2.7 : Float), Num.toUsize (-2.7 : Float), Num.toUsize (1e30 : Float), Num.toUsize nan,
+    Num.toUsize inf, Num.toUsize (-inf), Num.toUsize (1e15 : Float) ]
+  let bs : List Bool := [
+    Num.lt a nan, Num.le nan nan, Num.feq (0.0 : Float) (-0.0), Num.feq nan nan, Num.gt inf big, Num.isInf inf,
+    Num.isInf (-inf), Num.isInf nan, Num.isFinite nan, Num.isFinite big, Num.isNaN nan, Num.isNaN inf ]
+  " ".intercalate (xs.map showF) ++ " | " ++ " ".intercalate (is.map toString) ++ " | " ++
+    " ".intercalate (us.map toString) ++ " | " ++ " ".intercalate (bs.map showBool)
+
+def floatStep (st : FloatSt) (ws : List String) : FloatSt × String :=
+  match ws with
+  | ["fl.selftest"] => (st, selftest)
+  | "fl.witness" :: _ => (st, "ok")
+  | ["fl.fi.new", lo, hi] =>
+    match parseF? lo, parseF? hi with
+    | some lo, some hi => let iv := FI.new lo hi; ({ st with fi := iv }, showFI iv)
+    | _, _ => (st, "bad-op")
+  | ["fl.fi.step", lo, hi, s] =>
+    match parseF? lo, parseF? hi, parseF? s with
+    | some lo, some hi, some s => let iv := FI.withStep lo hi s; ({ st with fi := iv }, showFI iv)
+    | _, _, _ => (st, "bad-op")
+  | ["fl.fi.raw", lo, hi, s] =>
+    match parseF? lo, parseF? hi, parseF? s with
+    | some lo, some hi, some s => let iv : FI Float := { min := lo, max := hi, step := s }; ({ st with fi := iv }, showFI iv)
+    | _, _, _ => (st, "bad-op")
+  | ["fl.fi.isect", lo, hi, s] =>
+    match parseF? lo, parseF? hi, parseF? s with
+    | some lo, some hi, some s =>
+      let o : FI Float := { min := lo, max := hi, step := s }
+      (st, showFI (st.fi.intersect o) ++ " " ++ showBool (st.fi.intersects o))
+    | _, _, _ => (st, "bad-op")
+  | ["fl.fi.mid"] => (st, optF st.fi.mid)
+  | ["fl.fi.q", "fixed"] => (st, showBool st.fi.isFixed)
+  | ["fl.fi.q", "empty"] => (st, showBool st.fi.isEmpty)
+  | ["fl.fi.q", "steps"] => (st, toString st.fi.stepCount)
+  | ["fl.fi.q", "size"] => (st, showF st.fi.size)
+  | ["fl.fi.q", "contains", x] =>
+    match parseF? x with
+    | some x => (st, showBool (st.fi.contains x))
+    | none => (st, "bad-op")
+  | ["fl.fi.next", x] => match parseF? x with | some x => (st, showF (st.fi.next x)) | none => (st, "bad-op")
+  | ["fl.fi.prev", x] => match parseF? x with | some x => (st, showF (st.fi.prev x)) | none => (st, "bad-op")
+  | ["fl.fi.round", x] => match parseF? x with | some x => (st, optF (st.fi.roundToStep x)) | none => (st, "bad-op")
+  | ["fl.fi.floor", x] => match parseF? x with | some x => (st, optF (st.fi.floorToStep x)) | none => (st, "bad-op")
+  | ["fl.fi.ceil", x] => match parseF? x with | some x => (st, optF (st.fi.ceilToStep x)) | none => (st, "bad-op")
+  | ["fl.fi.below", x] =>
+    match parseF? x with
+    | some x => match st.fi.removeBelow x with
+      | some iv => ({ st with fi := iv }, showFI iv)
+      | none => (st, "panic")
+    | none => (st, "bad-op")
+  | ["fl.fi.above", x] =>
+    match parseF? x with
+    | some x => match st.fi.removeAbove x with
+      | some iv => ({ st with fi := iv }, showFI iv)
+      | none => (st, "panic")
+    | none => (st, "bad-op")
+  | ["fl.fi.assign", x] =>
+    match parseF? x with
+    | some x => match st.fi.assign x with
+      | some iv => ({ st with fi := iv }, showFI iv)
+      | none => (st, "panic")
+    | none => (st, "bad-op")
+  | ["fl.var", "f", lo, hi, s] =>
+    match parseF? lo, parseF? hi, parseF? s with
+    | some lo, some hi, some s =>
+      ({ st with vars := st.vars.push (.flt { min := lo, max := hi, step := s }) }, s!"var {st.vars.size}")
+    | _, _, _ => (st, "bad-op")
+  | "fl.var" :: "i" :: vs =>
+    match parseInts vs with
+    | some l => ({ st with vars := st.vars.push (.int l) }, s!"var {st.vars.size}")
+    | none => (st, "bad-op")
+  | "fl.view.mm" :: r =>
+    match parseFView r with
+    | some (v, _) =>
+      (st, s!"min={showVal (v.minRaw st.store)} max={showVal (v.maxRaw st.store)} float={showBool (v.isFloat st.store)}")
+    | none => (st, "bad-op")
+  | "fl.ctx.min" :: r =>
+    match parseFView r with
+    | some (v, r) =>
+      match parseVal r with
+      | some (m, _) =>
+        match v.trySetMin m st.ctx with
+        | none => (st, "none")
+        | some (c, ret) => (st.absorb c, s!"some ret={showVal ret} {showStore st.vars.size c.st} {showEv c.ev}")
+      | none => (st, "bad-op")
+    | none => (st, "bad-op")
+  | "fl.ctx.max" :: r =>
+    match parseFView r with
+    | some (v, r) =>
+      match parseVal r with
+      | some (m, _) =>
+        match v.trySetMax m st.ctx with
+        | none => (st, "none")
+        | some (c, ret) => (st.absorb c, s!"some ret={showVal ret} {showStore st.vars.size c.st} {showEv c.ev}")
+      | none => (st, "bad-op")
+    | none => (st, "bad-op")
+  | "fl.prune" :: r =>
+    match parseFPK r with
+    | some k =>
+      match k.prune st.ctx with
+      | none => (st, "none")
+      | some c => (st.absorb c, s!"some {showStore st.vars.size c.st} {showEv c.ev}")
+    | none => (st, "bad-op")
+  | _ => (st, "bad-op")
 
 end Driver
